@@ -39,6 +39,7 @@ type OblResult struct {
 	raw      string
 	file     string
 	failPath int
+	reachPCs [][]*Term
 	modelVals []string
 	testSrc, testOut, pkgDir string
 	failAsserts []*Term
@@ -267,6 +268,15 @@ func runCheck(o *Options) int {
 		}
 		// vacuity: the entry assumptions must be satisfiable
 		jobs = append(jobs, &OblResult{Name: pkgShort + "." + relName(ex.root) + "/vacuity#0", Kind: "vacuity", Fn: relName(ex.root), Text: "preconditions are satisfiable", ex: ex})
+		// and every return that some syntactic path reaches must be reachable under the collected assumptions
+		sites := make([]string, 0, len(ex.reach))
+		for s := range ex.reach {
+			sites = append(sites, s)
+		}
+		sort.Strings(sites)
+		for k, s := range sites {
+			jobs = append(jobs, &OblResult{Name: fmt.Sprintf("%s.%s/reach#%d", pkgShort, relName(ex.root), k), Kind: "reach", Fn: relName(ex.root), Text: "a feasible path reaches this return (the assumed contracts and invariants are not contradictory)", ex: ex, reachPCs: ex.reach[s]})
+		}
 	}
 	var jw sync.WaitGroup
 	jsem := make(chan struct{}, 16)
@@ -310,6 +320,43 @@ func (cr *checkRun) discharge(j *OblResult) {
 		}
 		return
 	}
+	if j.Kind == "reach" {
+		ex.mu.Lock()
+		var texts []string
+		for _, pc := range j.reachPCs {
+			// a return that the function's own precondition excludes is fine; one that stays unreachable with the
+			// requires clauses removed is excluded by an assumed contract / invariant: that is a contradiction
+			var npc []*Term
+			for i, t := range pc {
+				if i >= ex.wfLen && i < ex.reqLen {
+					continue
+				}
+				npc = append(npc, t)
+			}
+			asserts := append(append([]*Term(nil), ex.axioms...), npc...)
+			texts = append(texts, ts.Query(asserts, nil, ""))
+		}
+		ex.mu.Unlock()
+		if len(texts) > 24 {
+			texts = texts[:24]
+		}
+		t0 := time.Now()
+		res := SolveBatch(o.WorkDir, j.Name, texts, 1500, o.Seed)
+		j.Seconds = time.Since(t0).Seconds()
+		j.Solver = "z3-new"
+		j.Status = "failed"
+		j.Reason = "VACUOUS: no feasible path reaches this return - an assumed contract, invariant or precondition is contradictory"
+		for _, r := range res {
+			if r.Status != "unsat" {
+				// sat, or undecided within the short limit: not vacuous as far as we can tell
+				j.Status = "proved"
+				j.Reason = ""
+				j.Answer = r.Status
+				break
+			}
+		}
+		return
+	}
 	ob := j.ob
 	if len(ob.Paths) == 0 {
 		j.Status = "proved"
@@ -324,7 +371,25 @@ func (cr *checkRun) discharge(j *OblResult) {
 		text  string
 		abs   string
 		small string
+		qf    string // the same goal with universally quantified path facts dropped (their program-index instances stay)
 		names []string
+	}
+	dropForall := func(t *Term) *Term {
+		var rec func(t *Term) *Term
+		rec = func(t *Term) *Term {
+			if t.Op == "forall" {
+				return ts.True()
+			}
+			if t.Op == "and" {
+				var as []*Term
+				for _, a := range t.Args {
+					as = append(as, rec(a))
+				}
+				return ts.And(as...)
+			}
+			return t
+		}
+		return rec(t)
 	}
 	var qs []pq
 	mk := func(disj []*Term) pq {
@@ -339,6 +404,21 @@ func (cr *checkRun) discharge(j *OblResult) {
 			}
 		}
 		q := pq{text: ts.Query(asserts, vals, ""), names: names}
+		if len(disj) == 1 && disj[0].Op == "and" {
+			hasQ := false
+			var conj []*Term
+			for _, a := range disj[0].Args {
+				d := dropForall(a)
+				if d != a {
+					hasQ = true
+				}
+				conj = append(conj, d)
+			}
+			if hasQ {
+				qa := append(append([]*Term(nil), ex.axioms...), ts.And(conj...))
+				q.qf = ts.Query(qa, nil, "")
+			}
+		}
 		if len(disj) == 1 {
 			var bounds []*Term
 			for k, n := range names0 {
@@ -387,7 +467,41 @@ func (cr *checkRun) discharge(j *OblResult) {
 		}
 	}
 	t0 := time.Now()
-	res := SolveBatch(o.WorkDir, j.Name, texts, 1500, o.Seed)
+	// first the quantifier-free weakenings (unsat there is a proof), then the full queries for what is left
+	res := make([]SolveResult, len(qs))
+	var qfIdx []int
+	var qfTexts []string
+	for i, q := range qs {
+		if q.qf != "" {
+			qfIdx = append(qfIdx, i)
+			qfTexts = append(qfTexts, q.qf)
+		}
+	}
+	done := map[int]bool{}
+	if len(qfTexts) > 0 {
+		r0 := SolveBatch(o.WorkDir, j.Name+"-qf", qfTexts, 1500, o.Seed)
+		for k, r := range r0 {
+			if r.Status == "unsat" {
+				r.Solver = "z3-new(qf)"
+				res[qfIdx[k]] = r
+				done[qfIdx[k]] = true
+			}
+		}
+	}
+	var restIdx []int
+	var restTexts []string
+	for i := range qs {
+		if !done[i] {
+			restIdx = append(restIdx, i)
+			restTexts = append(restTexts, texts[i])
+		}
+	}
+	if len(restTexts) > 0 {
+		r1 := SolveBatch(o.WorkDir, j.Name, restTexts, 1500, o.Seed)
+		for k, r := range r1 {
+			res[restIdx[k]] = r
+		}
+	}
 	backends := map[string]bool{}
 	j.Status = "proved"
 	for i := range res {
